@@ -21,7 +21,7 @@ Definition exp_regexps_Process_initPortsFromCmdPattern : list string := ["\.([a-
 Definition exp_regexps_NewWorkflow : list string := ["[^a-z0-9_]"].
 
 Definition exp_Task_Execute : list stm :=
-  [SDefer (SClose "t.Done"); SIf "t.tempDirsExist()" [SFail] []; SIf "t.anyOutputsExist()" [SCall "t.drainStreamingInputs"; SSend "t.Done"; SReturn ""] []; SCall "t.workflow.IncConcurrentTasks"; SCall "t.createDirs"; SIf "err != nil" [SFail] []; SIf "t.CustomExecute != nil" [SRange "t.OutIPs" []; SCall "t.CustomExecute"] [SCall "t.executeCommand"]; SCall "t.writeAuditLogs"; SCall "t.ensureAllOutputsExist"; SCall "t.finalizePaths"; SIf "finErr != nil" [SFail] []; SCall "t.workflow.DecConcurrentTasks"; SSend "t.Done"].
+  [SIf "t.tempDirsExist()" [SFail] []; SIf "t.anyOutputsExist()" [SCall "t.drainStreamingInputs"; SCall "t.signalDone"; SReturn ""] []; SCall "t.workflow.IncConcurrentTasks"; SCall "t.createDirs"; SIf "err != nil" [SFail] []; SIf "t.CustomExecute != nil" [SRange "t.OutIPs" []; SCall "t.CustomExecute"] [SCall "t.executeCommand"]; SCall "t.writeAuditLogs"; SCall "t.ensureAllOutputsExist"; SCall "t.finalizePaths"; SIf "finErr != nil" [SFail] []; SCall "t.workflow.DecConcurrentTasks"; SCall "t.signalDone"].
 
 Definition exp_FinalizePaths : list stm :=
   [SRange "ips" [SIf "!oip.doStream" [SCall "oip.Path"; SCall "os.Rename(tempPath, finPath)"; SIf "renameErr != nil" [SReturn "<error>"] []] []]; SBlock [SCall "filepath.Walk"; SFunc "arg1" [SIf "!fileInfo.IsDir()" [SCall "replacePlaceholdersWithParentDirs"; SBlock [SCall "os.Stat"; SIf "os.IsNotExist(err)" [SCall "os.MkdirAll(finPathDir, 0777)"; SIf "errMkdir != nil" [] []] []]; SCall "os.Rename(tempPath, finPath)"; SIf "renameErr != nil" [SReturn "<error>"] []] []; SReturn "err"]]; SIf "err != nil" [] []; SIf "tempExecDir != """" && tempExecDir != ""."" && tempExecDir[0] != '/'" [SCall "os.RemoveAll(tempExecDir)"; SIf "remErr != nil" [SReturn "<error>"] []] []; SReturn "nil"].
